@@ -3,7 +3,7 @@
    model (mismatch:...) and judged by the validators of Spec/LockSpec.v (viol:...). *)
 From Apko Require Export Base.Prelude Base.Regex Base.C12Lib Model.Version Model.Lock Spec.LockSpec
   Generated.C09Lock Model.LockArchOrder.
-From Apko Require Model.Resolver Model.LockBuild.
+From Apko Require Model.Resolver Model.LockBuild Model.LockGuard.
 Open Scope string_scope. Open Scope list_scope.
 
 (* ---- stage "unify": unify through the verif hook ----------------------------- *)
@@ -393,7 +393,10 @@ Record build_case := {
 (* wave 3: a lock file that outlives its configuration.  `apko lock apko.yaml`; builds with --lockfile that name the configuration by
    several spellings of the same file, before and after the configuration is edited without locking again (spelling, succeeded, installed) *)
 Record stale_case := {
-  sl_locked : bool; sl_listed : list (string * string);
+  sl_locked : bool;
+  sl_lock_name : string; sl_lock_sum : string;      (* lock.Config.Name / DeepChecksum as recorded *)
+  sl_now_sum : string;                               (* the deep checksum of the configuration after the edit (what a fresh lock records) *)
+  sl_listed : list (string * string);
   sl_plain_ok : bool; sl_plain_installed : list (string * string);     (* the unlocked build of the EDITED configuration *)
   sl_fresh : list (string * bool * list (string * string));
   sl_stale : list (string * bool * list (string * string))
@@ -514,7 +517,16 @@ Definition check_stale (c : stale_case) : list string :=
      else ["viol:locked-build-fails/configuration-named-by-another-spelling"]) (sl_fresh c)) ++
   List.concat (List.map (fun r : string * bool * list (string * string) => let '(sp, ok, inst) := r in
      tag_if (ok && negb (sl_plain_ok c && same_members_b inst (sl_plain_installed c)))
-            "viol:stale-lock-accepted-after-configuration-edit") (sl_stale c)).
+            "viol:stale-lock-accepted-after-configuration-edit") (sl_stale c)) ++
+  (* the guard as goextract reads it (Model/LockGuard.lock_refused over Generated.C09Build.lock_guard_refuse): a build succeeds iff
+     the model does not refuse — before the edit the configuration's checksum is the recorded one, after it the new one *)
+  let model given sum := LockGuard.lock_refused {| LockGuard.gi_config_present := true; LockGuard.gi_cfg_sum := sum;
+       LockGuard.gi_cfg_file := given; LockGuard.gi_lock_sum := sl_lock_sum c; LockGuard.gi_lock_name := sl_lock_name c |} in
+  tag_if (negb (forallb (fun r : string * bool * list (string * string) => let '(given, ok, _) := r in
+                           Bool.eqb ok (negb (model given (sl_lock_sum c)))) (sl_fresh c)) ||
+          negb (forallb (fun r : string * bool * list (string * string) => let '(given, ok, _) := r in
+                           Bool.eqb ok (negb (model given (sl_now_sum c)))) (sl_stale c)))
+         "mismatch:stale-lock-guard-model-differs".
 
 (* on top of a base image: what the lock lists is what the build from it adds to the base image, each in the listed build *)
 Definition nvc_eqb (a b : string * string * string) : bool :=
@@ -525,7 +537,13 @@ Definition check_base (c : base_case) : list string :=
   tag_if (negb (forallb (fun l => existsb (nvc_eqb l) (ba_installed c)) (ba_listed c)))
          "viol:locked-build-has-another-build-of-a-listed-package" ++
   tag_if (negb (forallb (fun i => existsb (nvc_eqb i) (ba_listed c) || existsb (nvc_eqb i) (ba_base c)) (ba_installed c)))
-         "viol:locked-build-on-base-installs-other-than-listed".
+         "viol:locked-build-on-base-installs-other-than-listed" ++
+  (* InstallPackages on the base image as modelled (a package whose name is installed is skipped): same set of (name, checksum) *)
+  let bp (x : string * string * string) := {| LockGuard.bp_name := fst (fst x); LockGuard.bp_checksum := snd x |} in
+  let m := List.map (fun p => (LockGuard.bp_name p ++ " " ++ LockGuard.bp_checksum p)%string)
+                    (LockGuard.install_on (List.map bp (filter (fun b => existsb (fun i => String.eqb (fst (fst i)) (fst (fst b))) (ba_installed c)) (ba_base c)))
+                                          (List.map bp (ba_listed c))) in
+  tag_if (negb (set_eqb m (List.map (fun x : string * string * string => (fst (fst x) ++ " " ++ snd x)%string) (ba_installed c)))) "mismatch:base-install-model-differs".
 
 Definition check_cli (c : cli_case) : list string :=
   match c with CLock l => check_lockfile l | CBuild b => check_build b | CStale s => check_stale s | CBase b => check_base b end.
